@@ -82,7 +82,7 @@ def expansion_ttok(text):
 
 
 def coq_template(tt, fname):
-    return '{| t_file := %s; t_fn := ""; t_index := 0; t_line := 0; t_tokens := %s |}' % (T.coq_string(fname), T.coq_ttoks(tt, 0))
+    return '{| t_file := %s; t_fn := ""; t_index := 0; t_line := 0; t_var := ""; t_tokens := %s |}' % (T.coq_string(fname), T.coq_ttoks(tt, 0))
 
 
 def flat_words(tt):
@@ -206,7 +206,7 @@ def names_in_message(msg, modname, scope, hostile, prelude_lines):
             b = m.group(1)
             if b.startswith(modname + "::") and b[len(modname) + 2:] in hostile:
                 found.add(b[len(modname) + 2:])
-    if scope in ("sh", "pr"):
+    if scope in ("sh", "pr", "bc"):
         for s in all_spans(msg):
             if os.path.basename(s["file_name"]) == modname + ".rs" and s["line_start"] <= prelude_lines:
                 for tx in s.get("text", []):
@@ -220,7 +220,8 @@ def names_in_message(msg, modname, scope, hostile, prelude_lines):
 # ------------------------------------------------------------------ the corpus run
 
 PR_PRELUDE = "pub struct bool; pub struct str; pub struct isize;"
-OPERATOR_METHODS = ["add", "sub", "mul", "div", "rem", "shl", "shr", "bitand", "bitor", "bitxor", "not", "neg",
+# every trait item the expansions reach on user types (operators, conversions, formatting, iteration, constructors)
+OPERATOR_METHODS = ["default", "new", "product", "provide", "as_dyn_error", "add", "sub", "mul", "div", "rem", "shl", "shr", "bitand", "bitor", "bitxor", "not", "neg",
                     "add_assign", "sub_assign", "mul_assign", "div_assign", "rem_assign", "shl_assign", "shr_assign",
                     "bitand_assign", "bitor_assign", "bitxor_assign", "deref", "deref_mut", "index", "index_mut",
                     "from", "into", "try_from", "try_into", "from_str", "into_iter", "as_ref", "as_mut", "sum", "product",
@@ -235,19 +236,42 @@ INFO_SCOPES = {"pr": [PR_PRELUDE, ["IsVariant_enum", "FromStr_enum", "TryFrom_de
 
 
 def set_hijack_scope(method_names, case_ids):
-    names = sorted(set(n for n in list(method_names) + OPERATOR_METHODS if re.match(r"^[a-z_][a-z0-9_]*$", n)))
+    names = sorted(set(n for n in method_names if re.match(r"^[a-z_][a-z0-9_]*$", n)))
     body = "\n".join("    fn %s(self) -> Self { self }" % n for n in names)
     INFO_SCOPES["mh"][0] = "pub trait Hijack: ::core::marker::Sized {\n%s\n}\nimpl<T> Hijack for T {}" % body
     INFO_SCOPES["mh"][1] = list(case_ids)
 
 
+BC_NAMES = {}      # case id -> sorted non-`__` binder names of its real expansion (scope bc)
+
+
+def bc_prelude(names):
+    """unit items called like the binders: unit structs, constants and glob-imported unit variants, one per line"""
+    lines, variants = [], []
+    for k, nme in enumerate(names):
+        if k % 3 == 0:
+            lines.append("pub struct %s;" % nme)
+        elif k % 3 == 1:
+            lines.append("pub const %s: () = ();" % nme)
+        else:
+            variants.append(nme)
+    for v in variants:
+        lines.append("pub use self::BcUnitVariants::%s;" % v)
+    lines.append("pub enum BcUnitVariants { %s BcNone }" % "".join(v + ", " for v in variants))
+    return "\n".join(lines)
+
+
 def module_source(c, scope):
+    if scope == "bc":
+        return bc_prelude(BC_NAMES[c["id"]]) + "\n" + C.module_source(c, "pl")
     if scope in INFO_SCOPES:
         return INFO_SCOPES[scope][0] + "\n" + C.module_source(c, "pl")
     return C.module_source(c, scope)
 
 
-def prelude_lines(scope):
+def prelude_lines(scope, cid=None):
+    if scope == "bc":
+        return bc_prelude(BC_NAMES[cid]).count("\n") + 1
     if scope == "sh":
         return C.hostile_prelude().count("\n") + 1
     if scope in INFO_SCOPES:
@@ -260,6 +284,7 @@ def build_corpus(chk, cases, name, toolchain=None, crate_attrs="", target_dir=No
     active = [(c, s) for c in cases for s in C.SCOPES]
     for sc, (_, ids) in INFO_SCOPES.items():
         active += [(c, sc) for c in cases if c["id"] in ids]
+    active += [(c, "bc") for c in cases if c["id"] in BC_NAMES]
     failed = {}
     rounds = 0
     outputs = {}
@@ -358,11 +383,17 @@ def run(tier, seed, replay):
             "introduced_generics templates format_idents",
             "known_non_dunder_generics",
             "filter (fun g => negb (starts_dunder g)) (introduced_generics templates format_idents)",
-            "List.length (flat_map dm_paths templates)"], tag="c15m")
+            "List.length (flat_map dm_paths templates)",
+            "flat_map (fun t => map (fun p => (t_file t, t_line t, hd EmptyString p, last_seg p, assoc_path_closed templates (generic_params t) p)) (assoc_paths t)) templates",
+            "assoc_offenders templates",
+            "known_assoc_sites",
+            "flat_map (fun t => map (fun x => (t_file t, t_line t, x, starts_dunder x, binder_listed x)) (pattern_binders t)) templates"], tag="c15m")
     except common.BuildError as e:
         chk.violation("model-does-not-evaluate", {"error": str(e)[-3000:]}, "Model.v / Gen/Templates.v do not compile", no_input=True)
         return chk.finish(proof=st, rule="model failed", trusted=TRUSTED)
-    (m_off, m_tpl, m_gb, m_known, m_macros, m_msites, m_moff, m_mknown, m_gens, m_gknown, m_nondunder, m_ndm) = terms
+    (m_off, m_tpl, m_gb, m_known, m_macros, m_msites, m_moff, m_mknown, m_gens, m_gknown, m_nondunder, m_ndm,
+     m_asites, m_aoff, m_aknown, m_binders) = terms
+    m_aknown = [m_aknown] if isinstance(m_aknown, str) else list(m_aknown)
     m_known = [m_known] if isinstance(m_known, str) else list(m_known)
     m_mknown = [m_mknown] if isinstance(m_mknown, str) else list(m_mknown)
     m_gknown = [m_gknown] if isinstance(m_gknown, str) else list(m_gknown)
@@ -411,6 +442,22 @@ def run(tier, seed, replay):
     for (f, nme) in [tuple(o) for o in m_moff]:
         mkey = "%s:.%s" % (f, nme)
         method_offender_keys[mkey] = [x["site"] for x in method_site_table if x["method"] == nme and x["site"].startswith("impl/src/" + f)]
+    chk.bump("pattern_binders_in_templates", len(m_binders))
+    tpl_binders = {}
+    for (f, line, x, dd, listed) in m_binders:
+        tpl_binders.setdefault(x, {"dunder": dd == "true", "listed": listed == "true", "sites": set()})["sites"].add("impl/src/%s:%d" % (f, line))
+    for x, v in sorted(tpl_binders.items()):
+        if not v["dunder"] and not v["listed"] and not only_key:
+            chk.violation("binder-unlisted:" + x, {"name": x, "sites": sorted(v["sites"])},
+                          "template(s) at %s introduce the pattern binder `%s`, which is neither `__`-prefixed nor in the listed class" % (
+                              ", ".join(sorted(v["sites"])), x), no_input=True)
+    chk.bump("associated_path_sites", len(m_asites))
+    assoc_offender_keys = {}
+    for (f, shown) in [tuple(o) for o in m_aoff]:
+        akey = "%s:%s" % (f, shown)
+        root, last = shown.split("::", 1)
+        assoc_offender_keys[akey] = {"name": last, "sites": sorted(set("impl/src/%s:%d" % (x[0], x[1]) for x in m_asites
+                                                                   if x[0] == f and x[2] == root and x[3] == last and x[4] == "false"))}
     for g in m_nondunder:
         if g not in m_gknown and not only_key:
             chk.violation("generic-name:" + g, {"name": g},
@@ -435,7 +482,10 @@ def run(tier, seed, replay):
 
     inproc = common.build_inproc()
     state = {"expansions": [], "rounds": 0, "n_valid": 0}
+    captured = {}        # derive -> {case id: binder names rustc reports as captured}
     exhibited = {}       # key -> [case ids]
+    case_binders = {}        # case id -> non-`__` binders the macro introduces in the real expansion (not user identifiers)
+    derive_binders = {}      # derive -> the same
     predicted_methods = {}   # case id -> method names called with dot syntax on a user-typed receiver in the real expansion
     observations = {"primitive_shadowing(pr)": {}, "inherent_namesake(in)": {},
                     "trait_method_hijack(mh)": {"user_receiver_rejected": [], "std_receiver_rejected": {}, "unaffected": 0}}
@@ -462,16 +512,28 @@ def run(tier, seed, replay):
                 chk.violation("expansion-not-lexable", {"case": cid, "derive": dname, "error": str(e)}, str(e), no_input=True)
                 continue
             state["expansions"].append((cid, tt))
-            exprs.append("let t := %s in (offenders_of gb t, method_offenders_of (typed_binders t ++ gtb) t)" % coq_template(tt, cid))
+            exprs.append("let t := %s in (offenders_of gb t, method_offenders_of (typed_binders t ++ gtb) t, assoc_offenders_of templates t, map (fun x => (x, starts_dunder x, binder_listed x)) (pattern_binders t))" % coq_template(tt, cid))
             ex_owner.append((cid, dname, item))
         pre = ("Definition gb := Eval vm_compute in global_binders templates.\n"
                "Definition gtb := Eval vm_compute in global_typed_binders templates.")
         preds = common.coq_eval(["Verif.C15.Model", "Verif.Gen.Templates"], exprs, preamble=pre, batch=40, tag="c15e")
         predicted = {}     # case id -> set of shown heads that come from the macro, not from the user's item
-        for (cid, dname, item), (offs, moffs) in zip(ex_owner, preds):
+        for (cid, dname, item), (offs, moffs, aoffs, pbs) in zip(ex_owner, preds):
             user = idents_of(item)
+            for (x, dd, listed) in pbs:
+                if x in user or dd == "true":
+                    continue
+                # a binder the MACRO chose (not one of the user's field names) without the `__` prefix
+                case_binders.setdefault(cid, set()).add(x)
+                derive_binders.setdefault(dname, set()).add(x)
+                if listed != "true":
+                    chk.violation("binder-unlisted:" + x, {"case": cid, "derive": dname, "name": x, "item": item},
+                                  "the real expansion of %s (derive %s) binds `%s` in pattern position: neither `__`-prefixed nor in the "
+                                  "listed class of Model.binder_listed" % (cid, dname, x))
             for mo in moffs:
                 predicted_methods.setdefault(cid, set()).add(mo[1])
+            for ao in aoffs:
+                predicted_methods.setdefault(cid, set()).add(ao[1])
             for o in offs:
                 shown = o[2]
                 if bare_name(shown) not in user:
@@ -486,8 +548,18 @@ def run(tier, seed, replay):
             cid = c["id"]
             files = C.files_of(c)
             if (cid, "pl") in failed:
-                chk.violation("corpus-plain-fails:" + cid, {"case": cid, "messages": [m["message"] for m in failed[(cid, "pl")]][:5]},
-                              "corpus case %s does not compile in a plain module (check defect)" % cid, no_input=True)
+                msgs_pl = [m["message"] for m in failed[(cid, "pl")]][:5]
+                if predicted_methods.get(cid) or predicted.get(cid):
+                    # the classifier says the expansion looks a name up in the caller's scope / on the user's type, and the corpus type
+                    # (with its inherent namesakes) does not even compile in a plain module
+                    chk.violation("plain-rejected:%s" % c["derives"][0],
+                                  {"case": cid, "source": c["src"], "messages": msgs_pl,
+                                   "classifier": sorted(predicted_methods.get(cid, set()) | predicted.get(cid, set()))},
+                                  "%s is rejected even in a plain module (%s); the classifier finds the by-name lookups %s in its expansion" % (
+                                      cid, msgs_pl[:2], sorted(predicted_methods.get(cid, set()) | predicted.get(cid, set()))))
+                else:
+                    chk.violation("corpus-plain-fails:" + cid, {"case": cid, "messages": msgs_pl},
+                                  "corpus case %s does not compile in a plain module (check defect)" % cid, no_input=True)
                 continue
             R = set()
             for sc in C.SCOPES[1:]:
@@ -531,9 +603,36 @@ def run(tier, seed, replay):
                             state["n_valid"] += 1
                             observations["trait_method_hijack(mh)"]["user_receiver_rejected"].append(cid)
                         elif msgs is not None:
-                            observations["trait_method_hijack(mh)"]["std_receiver_rejected"][cid] = verdict[:160]
+                            chk.violation("hijack-unpredicted:%s" % c["derives"][0],
+                                          {"case": cid, "source": c["src"], "messages": [m["message"] for m in msgs][:6]},
+                                          "a blanket user trait with items named like the trait items the expansions use disturbs %s (%s), but the "
+                                          "classifier finds no by-name lookup on a user type in its expansion" % (cid, verdict[:200]))
                         else:
                             observations["trait_method_hijack(mh)"]["unaffected"] += 1
+            # scope bc: unit items called like the macro's non-`__` binders
+            if cid in BC_NAMES:
+                chk.count((cid, "bc"), nontrivial=True)
+                chk.bump("scope:bc")
+                msgs = failed.get((cid, "bc"))
+                if msgs is None:
+                    chk.violation("binder-prediction-wrong:%s" % cid, {"case": cid, "binders": BC_NAMES[cid], "source": c["src"]},
+                                  "the classifier finds the non-`__` pattern binders %s in the expansion of %s, but unit items of these names in "
+                                  "the caller's scope do not disturb it" % (BC_NAMES[cid], cid))
+                else:
+                    found = set()
+                    for m in msgs:
+                        found |= names_in_message(m, "bc_" + cid, "bc", set(BC_NAMES[cid]), prelude_lines("bc", cid))
+                    if not found:
+                        chk.violation("unexplained-rejection:%s" % c["derives"][0],
+                                      {"case": cid, "scope": "bc", "source": c["src"], "messages": [m["message"] for m in msgs][:6]},
+                                      "%s is rejected in scope bc but none of the binder names %s can be read off the diagnostics: %s" % (
+                                          cid, BC_NAMES[cid], [m["message"] for m in msgs][:2]))
+                    else:
+                        state["n_valid"] += 1
+                        chk.bump("rejected:bc")
+                        for d in c["derives"]:
+                            if found & derive_binders.get(d, set()):
+                                captured.setdefault(d, {}).setdefault(cid, sorted(found))
             # compare with the classifier's prediction for this case
             P = predicted.get(cid, set())
             rejected = any((cid, sc) in failed for sc in C.SCOPES[1:])
@@ -560,6 +659,12 @@ def run(tier, seed, replay):
                     exhibited.setdefault("%s:%s" % (fs[0], nme), []).append(cid)
             # behaviour
             base = outputs.get((cid, "pl"))
+            if c.get("expect") is not None and base is not None:
+                chk.bump("inherent_namesake_cases")
+                if base != c["expect"]:
+                    chk.violation("inherent-namesake:%s" % c["derives"][0], {"case": cid, "expected": c["expect"], "observed": base, "source": c["src"]},
+                                  "%s: the derived impl of a type whose field/target type has inherent items named like the trait items "
+                                  "computes %s instead of %s (an inherent item was picked up by name)" % (cid, base, c["expect"]))
             for sc in C.SCOPES[1:]:
                 o = outputs.get((cid, sc))
                 if o is not None:
@@ -571,15 +676,15 @@ def run(tier, seed, replay):
                         "names": sorted(R)}, limit=8)
 
     predicted = classify_expansions(cases)
-    if tier == "thorough":
-        mh_ids = [c["id"] for c in cases]
-    else:
-        mh_ids, seen_d = [], set()
-        for c in cases:
-            if c["id"] in predicted_methods or c["derives"][0] not in seen_d:
-                mh_ids.append(c["id"])
-                seen_d.add(c["derives"][0])
-    set_hijack_scope(methods, mh_ids)
+    BC_NAMES.clear()
+    BC_NAMES.update({cid: sorted(v) for cid, v in case_binders.items()})
+    # scope mh: a blanket by-value user trait with an item for every name that the model says is (or could be) looked up by
+    # name on a user type - the operator / conversion / associated-function names - but NOT the names of the methods called on
+    # receivers whose type the macro fixes (as_str, write_str, ..: their hijacking is rustc's autoref business, see observations)
+    fixed_recv_methods = set(x["method"] for x in method_site_table if x["closed"])
+    hijack_names = (set(OPERATOR_METHODS) | set(x["method"] for x in method_site_table if not x["closed"])
+                    | set(v["name"] for v in assoc_offender_keys.values())) - fixed_recv_methods
+    set_hijack_scope(hijack_names, [c["id"] for c in cases])
     name = "c15_corpus"
     try:
         failed, outputs, rounds = build_corpus(chk, cases, name)
@@ -593,6 +698,8 @@ def run(tier, seed, replay):
     if tier == "thorough" and not only_case:
         nightly_cases = list(C.NIGHTLY_CASES)
         npred = classify_expansions(nightly_cases)
+        BC_NAMES.clear()
+        BC_NAMES.update({cid: sorted(v) for cid, v in case_binders.items() if cid in set(c["id"] for c in nightly_cases)})
         set_hijack_scope(methods, [])
         INFO_SCOPES["lt"] = ["", [c["id"] for c in C.NIGHTLY_INFO_CASES]]
         nname = "c15_corpus_nightly"
@@ -646,6 +753,48 @@ def run(tier, seed, replay):
                                                "; ".join("%s: %s" % kv for kv in sorted(observations["inherent_namesake(in)"].items()))[:300]))
         if mkey not in m_mknown:
             chk.notes.append("method site %s is not in Model.known_method_sites: C15_method_calls_classified fails on this tree" % mkey)
+
+    # ---- binders in pattern position without the `__` prefix: ONE class
+    listed_tpl = sorted(x for x, v in tpl_binders.items() if not v["dunder"])
+    if (listed_tpl or captured) and not (only_key and only_key != "binder-name-captured"):
+        ex_case = None
+        for d in sorted(captured):
+            for cid in sorted(captured[d]):
+                ex_case = next(c for c in C.CASES + C.NIGHTLY_CASES if c["id"] == cid)
+                break
+            if ex_case:
+                break
+        robj = {"key": "binder-name-captured",
+                "template_binders": {x: sorted(tpl_binders[x]["sites"]) for x in listed_tpl},
+                "expansion_binders_by_derive": {d: sorted(v) for d, v in sorted(derive_binders.items())},
+                "derives_rejected_by_rustc": {d: len(v) for d, v in sorted(captured.items())}}
+        if ex_case:
+            robj["case"] = ex_case["id"]
+            robj["source"] = bc_prelude(BC_NAMES.get(ex_case["id"], [])) + "\n" + ex_case["src"]
+            robj["captured"] = captured[ex_case["derives"][0]].get(ex_case["id"])
+        chk.violation("binder-name-captured", robj,
+                      "%d template binder name(s) without the `__` prefix (%s); in real expansions %d derives bind such names; with unit items "
+                      "of these names in the caller's scope rustc rejects %d corpus case(s) of %d derive(s), e.g. %s" % (
+                          len(listed_tpl), ", ".join(listed_tpl), len(derive_binders), sum(len(v) for v in captured.values()), len(captured),
+                          ex_case["id"] if ex_case else "-"))
+
+    # ---- type-relative associated paths on user types: class key `<file>:<>::<name>`
+    for akey, v in sorted(assoc_offender_keys.items()):
+        if only_key and akey != only_key:
+            continue
+        hit = sorted(cid for cid, M in predicted_methods.items() if v["name"] in M)
+        robj = {"key": akey, "sites": v["sites"], "exhibited_by": hit[:8]}
+        if hit:
+            c0 = next(c for c in C.CASES + C.NIGHTLY_CASES if c["id"] == hit[0])
+            robj["case"] = c0["id"]
+            robj["source"] = c0["src"]
+        chk.violation(akey, robj,
+                      "template(s) at %s reach `%s` through a type-relative path (`<Ty>::%s` / `Ty::%s`) on a user type: it is looked up by "
+                      "name - an inherent item of the user's type wins and any other trait in the caller's scope with such an item makes it "
+                      "ambiguous; qualify it (`<Ty as derive_more::core::..::Trait>::%s`); corpus: %s" % (
+                          ", ".join(v["sites"]), v["name"], v["name"], v["name"], v["name"], ", ".join(hit[:4]) or "not exhibited"))
+        if akey not in m_aknown:
+            chk.notes.append("associated path %s is not in Model.known_assoc_sites: C15_assoc_paths_classified fails on this tree" % akey)
 
     # ---- report every offender class (template level), with its exhibiting cases
     for key in sorted(off_by_key):
@@ -702,6 +851,13 @@ def run(tier, seed, replay):
                "macro_paths": sorted(set("::".join(x) for x in m_macros)),
                "method_call_sites": method_site_table,
                "known_method_sites": m_mknown,
+               "pattern_binders": {"template_occurrences": len(m_binders),
+                                   "template_names": {x: {"dunder": v["dunder"], "sites": sorted(v["sites"])} for x, v in sorted(tpl_binders.items())},
+                                   "non_dunder_by_derive_in_real_expansions": {d: sorted(v) for d, v in sorted(derive_binders.items())},
+                                   "derives_with_rejected_cases": sorted(captured), "cases_rejected": sum(len(v) for v in captured.values()),
+                                   "cases_in_scope_bc": len(BC_NAMES)},
+               "associated_path_sites": len(m_asites),
+               "associated_path_roots": sorted(set("%s::%s" % (x[2], x[3]) for x in m_asites if not x[2].startswith("derive_more"))),
                "introduced_generic_names": sorted(set(m_gens)),
                "known_non_dunder_generics": m_gknown,
                "lib_rs_exports": len(ex["exports"]),
